@@ -5,11 +5,16 @@ use std::sync::{Arc, Barrier};
 
 pub fn main_pool(args: &[String]) -> i32 {
     let mut racers = 1usize;
+    // `--from-rayon`: the callers are worker threads of another rayon pool (an application with its own pool)
+    let mut from_rayon = false;
     let mut i = 0;
     while i < args.len() {
         if args[i] == "--racers" {
             racers = args.get(i + 1).and_then(|s| s.parse().ok()).unwrap_or(1);
             i += 2;
+        } else if args[i] == "--from-rayon" {
+            from_rayon = true;
+            i += 1;
         } else {
             i += 1;
         }
@@ -21,46 +26,76 @@ pub fn main_pool(args: &[String]) -> i32 {
         PANICS.fetch_add(1, std::sync::atomic::Ordering::SeqCst);
     }));
     let avail = affinity_count();
-    // N threads race on the first get_or_init_pool()
-    let barrier = Arc::new(Barrier::new(racers));
-    let mut handles = vec![];
-    for _ in 0..racers {
-        let b = barrier.clone();
-        handles.push(std::thread::spawn(move || {
-            b.wait();
-            let pool = cfavml_utils::get_or_init_pool();
-            let borrowed = matches!(pool, cfavml_utils::MaybeBorrowedPool::Borrowed(_));
-            let addr = match &pool {
-                cfavml_utils::MaybeBorrowedPool::Borrowed(p) => (*p) as *const rayon_pool::ThreadPoolAlias as usize,
-                cfavml_utils::MaybeBorrowedPool::Owned(p) => p as *const rayon_pool::ThreadPoolAlias as usize,
-            };
-            let threads = pool.current_num_threads();
-            // run work on it
-            let work: u64 = pool.install(|| (1..=100u64).sum());
-            (threads, borrowed, addr, work)
-        }));
-    }
+    // N threads race on the first get_or_init_pool(); every caller then asks a second time (while still holding the first
+    // answer) and counts the threads that really execute work (`broadcast` runs the closure once on every worker)
+    let caller = || {
+        let pool = cfavml_utils::get_or_init_pool();
+        let borrowed = matches!(pool, cfavml_utils::MaybeBorrowedPool::Borrowed(_));
+        let addr_of = |pool: &cfavml_utils::MaybeBorrowedPool| match pool {
+            cfavml_utils::MaybeBorrowedPool::Borrowed(p) => (*p) as *const rayon_pool::ThreadPoolAlias as usize,
+            cfavml_utils::MaybeBorrowedPool::Owned(p) => p as *const rayon_pool::ThreadPoolAlias as usize,
+        };
+        let addr = addr_of(&pool);
+        let threads = pool.current_num_threads();
+        // run work on it
+        let work: u64 = pool.install(|| (1..=100u64).sum());
+        let ids: Vec<std::thread::ThreadId> = pool.broadcast(|_| std::thread::current().id());
+        let distinct: std::collections::BTreeSet<String> = ids.iter().map(|t| format!("{t:?}")).collect();
+        let workers = distinct.len();
+        let again = cfavml_utils::get_or_init_pool();
+        let again_borrowed = matches!(again, cfavml_utils::MaybeBorrowedPool::Borrowed(_));
+        let again_ok = again_borrowed == borrowed
+            && (if borrowed { addr_of(&again) == addr } else { addr_of(&again) != addr })
+            && again.current_num_threads() == threads
+            && again.install(|| (1..=100u64).sum::<u64>()) == work;
+        (threads, borrowed, addr, work, workers, again_ok)
+    };
     let mut results = vec![];
-    for h in handles {
-        match h.join() {
-            Ok(r) => results.push(r),
-            Err(_) => {
-                println!("caller-panicked");
-                return 1;
-            },
+    if from_rayon {
+        let outer = rayon::ThreadPoolBuilder::new().num_threads(racers.max(1)).build().expect("outer pool");
+        let rs: Vec<Result<_, ()>> = outer.broadcast(|_| std::panic::catch_unwind(std::panic::AssertUnwindSafe(caller)).map_err(|_| ()));
+        for r in rs {
+            match r {
+                Ok(r) => results.push(r),
+                Err(()) => {
+                    println!("caller-panicked (called from a worker thread of another rayon pool)");
+                    return 1;
+                },
+            }
+        }
+    } else {
+        let barrier = Arc::new(Barrier::new(racers));
+        let mut handles = vec![];
+        for _ in 0..racers {
+            let b = barrier.clone();
+            handles.push(std::thread::spawn(move || {
+                b.wait();
+                caller()
+            }));
+        }
+        for h in handles {
+            match h.join() {
+                Ok(r) => results.push(r),
+                Err(_) => {
+                    println!("caller-panicked");
+                    return 1;
+                },
+            }
         }
     }
-    let (threads, borrowed, addr0, work) = results[0];
+    let (threads, borrowed, addr0, work, _, _) = results[0];
+    let workers_ok = results.iter().all(|r| r.4 == r.0);
+    let again_ok = results.iter().all(|r| r.5);
     let all_borrowed = results.iter().all(|r| r.1);
     let same = if all_borrowed { results.iter().all(|r| r.2 == addr0) } else { results.iter().all(|r| !r.1) };
     let same_threads = results.iter().all(|r| r.0 == threads);
     // let every worker finish its start handler
     std::thread::sleep(std::time::Duration::from_millis(60));
     let panics = PANICS.load(std::sync::atomic::Ordering::SeqCst);
-    let pools = if all_borrowed { 1 } else { results.len() };
+    let pools = if all_borrowed { 1 } else { 2 * results.len() };
     println!(
-        "threads={} borrowed={} same={} same_threads={} work={} physical={} panics={} avail={} pools={}",
-        threads, borrowed as u8, same as u8, same_threads as u8, work, physical, panics, avail, pools
+        "threads={} borrowed={} same={} same_threads={} work={} physical={} panics={} avail={} pools={} workers_ok={} again_ok={}",
+        threads, borrowed as u8, same as u8, same_threads as u8, work, physical, panics, avail, pools, workers_ok as u8, again_ok as u8
     );
     0
 }
